@@ -7,6 +7,8 @@ import ClusterVerif.Spec.C14Start
 import ClusterVerif.Lemmas.C14Start
 import ClusterVerif.Model.C14Snaps
 import ClusterVerif.Lemmas.C14Snaps
+import ClusterVerif.Model.C14Damage
+import ClusterVerif.Lemmas.C14Damage
 
 /-!
 # C14 — state export/import, snapshots, backups and the peerstore file round-trip
@@ -1093,6 +1095,172 @@ theorem gen_sem_fresh_matches_model (c : Nat) :
   simp [Snaps.save, Snaps.latest, Snaps.snapsOf, Snaps.newest, Snaps.pick, Gen.Sem.saveFreshTerm, Gen.Sem.saveFreshIndex]
 
 end SnapsTheorems
+
+/-! ## damaged snapshots, equal (term, index), retention (round 8c, `Model/C14Damage.lean`) -/
+section DamageTheorems
+open Damage
+
+/-- the offline read NEVER silently answers with an older snapshot: when it answers with a pinset, that is an undamaged
+    snapshot of the folder that no other snapshot — damaged or not — is newer than -/
+theorem offline_never_stale (l : List DSnap) (c : Nat) (h : offlineD (some l) = .pins c) :
+    ∃ m ∈ l, m.bad = false ∧ m.s.pin = c ∧ ∀ x ∈ l, Snaps.newer x.s m.s = false := by
+  simp only [offlineD] at h
+  cases hn : newestD l with
+  | none => simp [hn] at h
+  | some m =>
+    simp only [hn] at h
+    obtain ⟨h1, h2⟩ := newestD_spec l m hn
+    cases hb : m.bad with
+    | true => simp [hb] at h
+    | false =>
+      simp only [hb, Bool.false_eq_true, if_false, Read.pins.injEq] at h
+      exact ⟨m, h1, hb, h, h2⟩
+example : offlineD (some [⟨⟨1, 9, 2⟩, true⟩, ⟨⟨2, 5, 3⟩, false⟩]) = .pins 3 := by decide
+
+/-- a damaged snapshot is refused exactly when it is the one `List` puts first: for every folder the read is the refusal
+    iff the newest snapshot is damaged (an older damaged snapshot is invisible) -/
+theorem offline_broken_iff (l : List DSnap) : offlineD (some l) = .broken ↔ ∃ m, newestD l = some m ∧ m.bad = true := by
+  simp only [offlineD]
+  cases hn : newestD l with
+  | none => simp
+  | some m => cases hb : m.bad <;> simp [hb]
+example : offlineD (some [⟨⟨1, 9, 2⟩, false⟩, ⟨⟨2, 5, 3⟩, true⟩]) = .broken := by decide
+
+/-- `SnapshotSave` onto a folder whose newest snapshot is damaged is REFUSED and changes nothing (no backup, no new snapshot) -/
+theorem save_refused_on_damaged_newest (l : List DSnap) (c : Nat) (m : DSnap) (hn : newestD l = some m) (hb : m.bad = true) :
+    saveD (some l) c = ⟨some l, none, true⟩ := by
+  simp only [saveD, Option.getD_some, hn, hb, if_true]
+example : saveD (some [⟨⟨1, 9, 2⟩, false⟩, ⟨⟨2, 5, 3⟩, true⟩]) 4 = ⟨some [⟨⟨1, 9, 2⟩, false⟩, ⟨⟨2, 5, 3⟩, true⟩], none, true⟩ := by decide
+
+/-- … whereas `state import` (Clean first) succeeds on EVERY folder, damaged or not: the read afterwards is the import, and a
+    folder that listed any snapshot is old.0, whole -/
+theorem import_onto_damaged_id (f : DFolder) (c : Nat) :
+    (importD f c).failed = false ∧ offlineD (importD f c).data = .pins c ∧
+      (∀ l m, f = some l → newestD l = some m → (importD f c).old0 = f) := by
+  have hfresh : saveD none c = ⟨some [⟨⟨1, 2, c⟩, false⟩], none, false⟩ := by simp [saveD, newestD]
+  have hoff : offlineD (some [⟨⟨1, 2, c⟩, false⟩]) = .pins c := by simp [offlineD, newestD, pickD]
+  cases f with
+  | none => simp [importD, cleanupD, hfresh, hoff]
+  | some l =>
+    cases hn : newestD l with
+    | none =>
+      refine ⟨by simp [importD, cleanupD, hn, hfresh], by simp [importD, cleanupD, hn, hfresh, hoff], ?_⟩
+      intro l1 m h1 h2; cases h1; rw [hn] at h2; cases h2
+    | some m => simp [importD, cleanupD, hn, hfresh, hoff]
+example : (importD (some [⟨⟨1, 9, 2⟩, false⟩, ⟨⟨2, 5, 3⟩, true⟩]) 4).data = some [⟨⟨1, 2, 4⟩, false⟩] := by decide
+
+/-- `SnapshotSave` on an undamaged newest snapshot: `snapshot_offline_id` and the whole folder (damaged older ones included) in old.0 -/
+theorem save_ok_on_intact_newest (l : List DSnap) (c : Nat) (m : DSnap) (hn : newestD l = some m) (hb : m.bad = false) :
+    (saveD (some l) c).failed = false ∧ offlineD (saveD (some l) c).data = .pins c ∧ (saveD (some l) c).old0 = some l := by
+  have hs : saveD (some l) c = ⟨some [⟨⟨m.s.term, m.s.index, c⟩, false⟩], some l, false⟩ := by
+    simp only [saveD, Option.getD_some, hn, hb]; simp
+  rw [hs]; simp [offlineD, newestD, pickD]
+example : (saveD (some [⟨⟨1, 9, 2⟩, true⟩, ⟨⟨2, 5, 3⟩, false⟩]) 4).data = some [⟨⟨2, 5, 4⟩, false⟩] := by decide
+
+/-- equal (term, index): the snapshot created LAST is the one read, as soon as no other key is larger -/
+theorem tie_latest_created_wins (l : List DSnap) (x : DSnap) (h : ∀ y ∈ l, Snaps.newer y.s x.s = false) :
+    newestD (l ++ [x]) = some x := newestD_append_tie l x h
+example : newestD [⟨⟨2, 5, 3⟩, false⟩, ⟨⟨1, 100, 1⟩, false⟩, ⟨⟨2, 5, 4⟩, false⟩] = some ⟨⟨2, 5, 4⟩, false⟩ := by decide
+
+/-- refuted alternative: "the first created of equal keys is read" (`pick` of the round-8b model, which assumed distinct keys) -/
+theorem tie_first_created_fails :
+    ¬ (∀ l : List Snaps.Snap, (newestD (l.map (fun s => ⟨s, false⟩))).map (·.s) = Snaps.newest l) := by
+  intro h
+  have := h [⟨2, 5, 3⟩, ⟨2, 5, 4⟩]
+  revert this; decide
+
+/-- the offline read and the START of a peer differ on a damaged newest snapshot (the started peer falls back, hashicorp
+    `restoreSnapshot`): the "fall back" reading of the offline read is NOT what the code does — witness -/
+theorem offline_is_not_fallback : ¬ (∀ l : List DSnap, offlineD (some l) = offlineFallback l) := by
+  intro h
+  have := h [⟨⟨1, 9, 2⟩, false⟩, ⟨⟨2, 5, 3⟩, true⟩]
+  revert this; decide
+
+/-- without damage the two agree for every folder -/
+theorem offline_eq_fallback_of_intact (l : List DSnap) (h : ∀ x ∈ l, x.bad = false) : offlineD (some l) = offlineFallback l := by
+  have hf : l.filter (fun x => !x.bad) = l := by
+    apply List.filter_eq_self.mpr; intro x hx; simp [h x hx]
+  simp only [offlineD, offlineFallback, startD, hf]
+  cases hn : newestD l with
+  | none =>
+    cases l with
+    | nil => simp
+    | cons a t =>
+      exfalso
+      have : ∀ (t : List DSnap) (a : DSnap), ∃ m, t.foldl pickD (some a) = some m := by
+        intro t; induction t with
+        | nil => intro a; exact ⟨a, rfl⟩
+        | cons b t ih =>
+          intro a; simp only [List.foldl_cons, pickD]
+          cases Snaps.newer a.s b.s <;> simp [ih]
+      obtain ⟨m, hm⟩ := this t a
+      simp [newestD, pickD, hm] at hn
+  | some m =>
+    have := h m (newestD_spec l m hn).1
+    simp [this]
+example : ∀ x ∈ [(⟨⟨1, 9, 2⟩, false⟩ : DSnap), ⟨⟨2, 5, 3⟩, false⟩], x.bad = false := by decide
+
+/-- retention (`ReapSnapshots`, `RaftMaxSnapshots`): at most `keep` snapshots stay, each of them was in the folder, and with
+    keep ≥ 1 the first kept one is a snapshot no other is newer than — reaping never removes what `latestSnapshot` reads -/
+theorem reap_keeps_newest (keep : Nat) (l : List Snaps.Snap) :
+    (Snaps.reap keep l).length = min keep l.length ∧ (∀ x ∈ Snaps.reap keep l, x ∈ l) ∧
+      (1 ≤ keep → ∀ m, (Snaps.reap keep l).head? = some m → m ∈ l ∧ ∀ x ∈ l, Snaps.newer x m = false) := by
+  refine ⟨by simp [Snaps.reap, sortDesc_length], ?_, ?_⟩
+  · intro x hx
+    exact (mem_sortDesc x l).mp (List.mem_of_mem_take hx)
+  · intro hk m hm
+    have hmax := headMax_sortDesc l
+    cases hs : Snaps.sortDesc l with
+    | nil => simp [Snaps.reap, hs] at hm
+    | cons a t =>
+      have hka : keep = (keep - 1) + 1 := by omega
+      rw [Snaps.reap, hs, hka, List.take_succ_cons] at hm
+      simp only [List.head?_cons, Option.some.injEq] at hm
+      subst hm
+      rw [hs] at hmax
+      refine ⟨(mem_sortDesc a l).mp (by rw [hs]; exact List.mem_cons_self ..), ?_⟩
+      intro x hx
+      have hx' := (mem_sortDesc x l).mpr hx
+      rw [hs] at hx'
+      rcases List.mem_cons.mp hx' with rfl | hx'
+      · exact Snaps.newer_irrefl _
+      · exact hmax x hx'
+example : Snaps.reap 2 [⟨1, 9, 1⟩, ⟨2, 5, 2⟩, ⟨1, 100, 3⟩] = [⟨2, 5, 2⟩, ⟨1, 100, 3⟩] := by decide
+
+
+/-- the SEMANTIC tie of `raftStateManager.ImportState` (go/ast → operation list, not text): the regenerated list decodes to
+    Clean, GetStore, GetOfflineState, importState, SnapshotSave, every error ending the function -/
+theorem gen_sem_import_ops :
+    Gen.SemImport.raftImportOps.map decodeOp = [some .clean, some .store, some .offline, some .imp, some .save] := by decide
+
+/-- … and INTERPRETED on the folder model it is `importD`, for every folder (damaged, tied, absent) and every pinset — so with
+    `import_onto_damaged_id` the regenerated operation list itself replaces whatever was there -/
+theorem gen_sem_import_is_model (f : DFolder) (c : Nat) :
+    runImport (Gen.SemImport.raftImportOps.map decodeOp) f none none c = some (importD f c) := by
+  rw [gen_sem_import_ops]
+  have hd : (cleanupD f).data = none := by
+    cases f with
+    | none => rfl
+    | some l => simp only [cleanupD]; cases newestD l <;> rfl
+  have hs : (saveD none c).old0 = none := by simp [saveD, newestD]
+  simp [runImport, hd, offlineD, importD, hs]
+  intro h; exact h.symm
+example : runImport (Gen.SemImport.raftImportOps.map decodeOp) (some [⟨⟨1, 9, 2⟩, false⟩, ⟨⟨2, 5, 3⟩, true⟩]) none none 4
+    = some ⟨some [⟨⟨1, 2, 4⟩, false⟩], some [⟨⟨1, 9, 2⟩, false⟩, ⟨⟨2, 5, 3⟩, true⟩], false⟩ := by decide
+
+/-- the alternative "no Clean first, SnapshotSave does the backup" (the seeded change of round 8), interpreted: on a folder whose
+    newest snapshot is damaged the import FAILS and nothing is replaced — a second failing input for it besides log-without-snapshot -/
+theorem import_without_clean_fails_on_damaged :
+    runImport [some .store, some .offline, some .imp, some .save] (some [⟨⟨2, 5, 3⟩, true⟩]) none none 4
+      = some ⟨some [⟨⟨2, 5, 3⟩, true⟩], none, true⟩ := by decide
+
+/-- the decode loop of `importState`: decode, end of stream ⇒ done, error ⇒ stop, add, error ⇒ stop, count -/
+theorem gen_sem_import_loop :
+    Gen.SemImport.importLoop = ["var", "dec.Decode", "if err == io.EOF return n, nil", "if err != nil return n, err",
+      "st.Add", "if err != nil return n, err", "n++"] := by decide
+
+end DamageTheorems
+
 
 /-! ### The anchored functions still read as the model was transcribed (regenerated from /repo on every run) -/
 
